@@ -3,13 +3,11 @@
     (Get / newConnection / Set / cleanup), the outcome of a call with and without a route, and
     the relay of mwitkow/grpc-proxy's handler as far as the property talks about it.
 
-    Route lookup is the subject of C01-C03; here it is the reduced form that the generated
-    tables need: host keys without glob meta characters (a glob without meta characters matches
-    exactly its own text), the prefix matcher, routes of a host in the order the live table
-    holds them (the harness reads that order from the real table), fallback to the host-less
-    routes.  No proofs in this file. *)
+    Route selection itself is C03's model (Model/Lookup.v), composed here, not re-modelled.
+    No proofs in this file. *)
 From Coq Require Import String List NArith Bool.
 From Fabio Require Import Lib.Outcome Lib.Bytes.
+From Fabio Require Model.Glob Model.Lookup.
 Import ListNotations.
 Local Open Scope N_scope.
 
@@ -35,12 +33,6 @@ Definition table_urls (t : table) : list url :=
 (* proxy/grpc_handler.go:325-336 hasTarget *)
 Definition has_target (k : url) (t : table) : bool := mem k (table_urls t).
 
-(* route/table.go:296-308 normalizeHost with tls = false *)
-Definition colon80 : str := [58; 56; 48].
-Definition strip80 (h : str) : str :=
-  if has_suffix h colon80 then firstn (List.length h - 3) h else h.
-Definition norm_host (h : str) : str := lower (strip80 h).
-
 (* grpc_handler.go:175-182 getDestinationHostFromMetadata *)
 Definition k_dsthost : str := bs "dsthost".
 Definition dsthost (m : md) : str :=
@@ -49,42 +41,33 @@ Definition dsthost (m : md) : str :=
   | _ => []
   end.
 
-(* table.go:312-350 matchingHosts / matchingHostNoGlob on keys without glob meta characters
-   (both lower-case the request host since /repo 3f5e3c8; [noglob] is kept as a parameter of
-   the cases, the two paths agree on this domain).
-   Several matching keys would be sorted by sortHostsReverseHostPort; with keys that do not
-   end in ":80" at most one key matches (see [keys_plain]), so the order is immaterial. *)
-Definition matching_keys (t : table) (noglob : bool) (reqhost : str) : list str :=
-  let h := norm_host reqhost in
-  filter (fun k => beq (norm_host k) h) (map fst t).
+(* Route selection is C03's model of route/table.go (Model/Lookup.v: normalizeHost,
+   matchingHosts with the gobwas matcher, matchingHostNoGlob, sortHostsReverseHostPort, Lookup,
+   lookup), not re-modelled here: the gRPC table is handed to it with the prefix matcher
+   (cfg.Proxy.Matcher = "prefix"), tls = false (the synthetic request has no TLS state) and
+   the configured GlobMatchingDisabled; what comes back is the (host key, path) of the selected
+   route, whose targets are read from the gRPC table.  Routes of a host in the order the live
+   table holds them (the harness reads it from the real table).  Domain: every route has at
+   least one target (route add always gives one; a target-less route would make lookup return
+   nil for that host). *)
+Definition to_c03 (t : table) : Lookup.table :=
+  map (fun hr => (fst hr, map (fun r : route => (fst r, 0)) (snd hr))) t.
 
-Fixpoint first_match (path : str) (rs : list route) : option route :=
-  match rs with
-  | [] => None
-  | r :: rest => if has_prefix path (fst r) then Some r else first_match path rest
-  end.
-
-(* table.go:450-475 lookup with the prefix matcher: the first matching route decides, a route
-   without targets yields nil *)
-Definition lookup_host (t : table) (h : str) (path : str) : option (list url) :=
-  match assoc (lower h) t with
+Definition route_targets (t : table) (k p : str) : option (list url) :=
+  match assoc k t with
   | None => None
-  | Some rs => match first_match path rs with
-               | Some (_, []) => None
-               | Some (_, ts) => Some ts
-               | None => None
+  | Some rs => match find (fun r : route => beq (fst r) p) rs with
+               | Some (_, x :: ts) => Some (x :: ts)
+               | _ => None
                end
   end.
 
-Fixpoint first_some {A B} (f : A -> option B) (l : list A) : option B :=
-  match l with
-  | [] => None
-  | a :: r => match f a with Some b => Some b | None => first_some f r end
-  end.
-
-(* table.go:399-444 Lookup (no redirect targets): matching hosts, then "" *)
+(* table.go:399-444 Lookup as the interceptor calls it *)
 Definition lookup (t : table) (noglob : bool) (host path : str) : option (list url) :=
-  first_some (fun h => lookup_host t h path) (matching_keys t noglob host ++ [[]]).
+  match Lookup.lookup (to_c03 t) host false path Lookup.MPrefix noglob with
+  | Some (k, p, _) => route_targets t k p
+  | None => None
+  end.
 
 (* grpc_handler.go:130-166 GrpcProxyInterceptor.lookup.  [m] = None: no metadata in the
    context; [upath] = url.ParseRequestURI(fullMethod).Path computed by the real net/url
@@ -100,12 +83,12 @@ Definition icpt_lookup (t : table) (noglob : bool) (m : option md) (upath : opti
               end
   end.
 
-(* the domain of the reduced lookup *)
-Definition glob_meta (c : N) : bool :=
-  existsb (N.eqb c) [42; 63; 91; 93; 123; 125; 92; 44; 33].   (* * ? [ ] { } \ , ! *)
-Definition key_plain (k : str) : bool :=
-  negb (existsb glob_meta k) && negb (has_suffix k colon80) && beq (lower k) k.
-Definition keys_plain (t : table) : bool := forallb key_plain (map fst t).
+(* the domain of the composed model: C03's key domain (printable ASCII, no '[' '{' '\', no
+   brackets, not starting with ':'), lower-case keys, printable request host, no target-less route *)
+Definition table_domain (t : table) : bool :=
+  forallb (fun k => Lookup.key_domain k && beq (lower k) k) (map fst t)
+  && forallb (fun hr => forallb (fun r : route => match snd r with [] => false | _ => true end) (snd hr)) t.
+Definition host_domain (h : str) : bool := Glob.subject_domain h && Lookup.no_bracket h.
 
 (* ---- the connection pool ---- *)
 (* connections are numbered in the order they are dialled; a connection is live until it
